@@ -34,6 +34,24 @@ KEY_H15 = "blocktx-migration:rerun-overwrites-migrated-block"
 KEY_H20 = "blocktx-migration:empty-block-left-without-blob"  # + ":uninterrupted-leading-range" | ":after-crash" | ":after-cancel" | ":after-fail"
 
 
+def _known_pattern(ctx, key):
+    """Is `key` (or a prefix family of it) listed with status known in known_findings.json? Only then is the
+    code EXPECTED to behave like the model with that switch FALSE; fixed or unlisted => repaired model only."""
+    return any(k.get("status") == "known" and (vlib.key_matches(k["key"], key) or k["key"].rstrip("*").startswith(key))
+               for k in ctx.known)
+
+
+def _guard(ctx, fn, *args):
+    """A later part that cannot be run (engine dies, hangs, TLC trouble) must not turn an already
+    recorded violation into BROKEN: the violation is the verdict."""
+    try:
+        fn(ctx, *args)
+    except vlib.Broken as e:
+        if not ctx.violations:
+            raise
+        ctx.coverage.setdefault("parts_broken_after_a_violation", []).append(str(e)[:400])
+
+
 def _keys(res):
     return {d.get("key") for d in res.get("divergences", [])}
 
@@ -77,7 +95,7 @@ def runner_part(ctx, binary, thorough):
 
     # 3. the code shows a defect the specification has a switch for: the faithful model (those
     #    switches FALSE) must then describe the code completely
-    asis = [s for s, k in (("FixH7", KEY_H7), ("FixH19", KEY_H19)) if k in _keys(res)]
+    asis = [s for s, k in (("FixH7", KEY_H7), ("FixH19", KEY_H19)) if _known_pattern(ctx, k)]
     ctx.coverage["runner_switches_as_in_code"] = {"FixH7": "FixH7" not in asis, "FixH19": "FixH19" not in asis}
     if asis:
         cfg = _asis_cfg(ctx, "Migration_sim.cfg", asis)
@@ -119,7 +137,7 @@ def blocktx_part(ctx, binary, thorough):
     ctx.absorb(res, "migration", "TestBlockTxReplay")
     ctx.coverage["blocktx_behaviours"] = len(behaviours)
     ctx.coverage["blocktx_steps_replayed"] = res.get("steps", 0)
-    asis = [s for s, k in (("FixH15", KEY_H15), ("FixH20", KEY_H20)) if any(x.startswith(k) for x in _keys(res))]
+    asis = [s for s, k in (("FixH15", KEY_H15), ("FixH20", KEY_H20)) if _known_pattern(ctx, k)]
     ctx.coverage["blocktx_switches_as_in_code"] = {"FixH15": "FixH15" not in asis, "FixH20": "FixH20" not in asis}
     if asis:
         b2 = gen(asis, 500)
@@ -150,6 +168,18 @@ def shapes(seed, thorough):
     t[40:58] = [0] * 18
     out.append({"name": "trailing-empty-58", "txs": t})
     out.append({"name": "short-7", "txs": rand(7)})
+    # degenerate / boundary shapes: no block at all, a single block (empty / not), chain lengths at the
+    # range boundary (exactly one range; one block into the second), one block whose transaction count
+    # crosses the one- and two-byte length encodings
+    out.append({"name": "no-blocks-0", "txs": []})
+    out.append({"name": "single-empty-1", "txs": [0]})
+    out.append({"name": "single-1", "txs": [2]})
+    out.append({"name": "one-into-second-range-11", "txs": rand(10) + [1]})
+    fat = rand(12)
+    fat[5] = 300
+    out.append({"name": "fat-block-12", "txs": fat, "noReadFaults": True})
+    if thorough:
+        out.append({"name": "exactly-one-range-10", "txs": rand(10)})
     out.append({"name": "pruned-30", "txs": rand(30), "pruneTo": 13})
     if thorough:
         out.append({"name": "all-empty-12", "txs": [0] * 12})
@@ -181,6 +211,15 @@ def historypruner_part(ctx, binary, thorough):
     ctx.coverage["historypruner_crash_restart_sequences"] = res.get("replayed", 0)
 
 
+def extras_part(ctx, binary, thorough):
+    """Concurrent round (free-running migration judged on live snapshots by NeverLost / OnlyOriginal) and
+    the degenerate / extreme shapes of the runner (empty registry, 64 migrations, index 63)."""
+    res = ctx.run_engine(binary, "TestMigrationConcurrent", {"blocks": 600, "rounds": 6 if thorough else 3}, timeout=900)
+    ctx.absorb(res, "migration", "TestMigrationConcurrent")
+    res = ctx.run_engine(binary, "TestRunnerExtremes", {}, timeout=900)
+    ctx.absorb(res, "migration", "TestRunnerExtremes")
+
+
 def run(ctx):
     binary = ctx.build_engine("migration")
     if ctx.replay:
@@ -191,10 +230,16 @@ def run(ctx):
         return ctx.finish("model_checking", "replay of one recorded behaviour")
 
     thorough = not ctx.quick()
-    runner_part(ctx, binary, thorough)
-    blocktx_part(ctx, binary, thorough)
-    enum_part(ctx, binary, thorough)
-    historypruner_part(ctx, binary, thorough)
+    _guard(ctx, runner_part, binary, thorough)
+    _guard(ctx, blocktx_part, binary, thorough)
+    _guard(ctx, enum_part, binary, thorough)
+    _guard(ctx, historypruner_part, binary, thorough)
+    _guard(ctx, extras_part, binary, thorough)
+    # a listed known finding that did not show in this run is worth a line, not a verdict
+    hit = {h["key"] for h in ctx.known_hits}
+    for k in ctx.known:
+        if k.get("status") == "known" and k["key"] not in hit:
+            print("NOTE: property=C18 known finding [%s] did not reproduce in this run" % k["key"], flush=True)
     ctx.assumptions += [
         "a single Batch.Write / Put / DeleteRange is atomic and durable (C15 examines the backends)",
         "a crash is modelled as: the k-th durable mutation is applied and no later operation reaches the store",
